@@ -97,8 +97,8 @@ def rand_date(rng, zone=None, wide=True):
 
 def rand_depression(rng):
     k = rng.random()
-    if k < 0.06:
-        return rng.choice([0.0, 0, 0.5, 90.0])       # falsy / boundary values
+    if k < 0.12:
+        return rng.choice([0.0, 0, 0.0, 0, 0.5, 90.0])       # falsy / boundary values
     if k < 0.6:
         return float(rng.choice([6, 12, 18]))
     if k < 0.7:
